@@ -307,7 +307,7 @@ def run(ctx):
         if b is not None and a != b: mism.append(("rabin", ln, a, b))
 
     # ---------------------------------------------------------------- 4. smoke runs
-    n_sm = 0 if only and only != "smoke" else (600 if T else 70)
+    n_sm = 0 if only and only != "smoke" else (300 if T else 70)
     lines = list(corpus["smoke"])
     while len(lines) < n_sm + len(corpus["smoke"]) and not (only == "smoke"):
         o0 = gen_smoke_opts(rng)
